@@ -817,7 +817,11 @@ class Interp:
             it = self.iter_lazy(self.eval(st.iter, env))
             self.repo.__dict__.setdefault("_executed_loops", set()).add((self._mod(env).name, st.lineno))
             broke = False
+            n_iter = 0
             for item in it:
+                n_iter += 1
+                if n_iter > 200000:
+                    raise Undecided("while loop bound exceeded (a for loop over an endless iterator never leaves)")
                 self.assign(st.target, item, env)
                 try:
                     self.exec_block(st.body, env)
